@@ -231,6 +231,8 @@ type artefact struct {
 	// metaHeld: metadata a MetaStore would hold for this artefact in the "MetaStore holds the
 	// original metadata" flow; nil = use the base's metadata.
 	heldMeta *bs.FileMetadata
+	// framing: the artefact is the base file with re-written (CRC-consistent) metadata
+	framing bool
 }
 
 // forEachArtefact calls fn for every artefact of the family whose index falls in the shard.
@@ -238,7 +240,7 @@ func forEachArtefact(b *c19base, family string, shard, shards int, fn func(a art
 	idx := 0
 	emit := func(id string, data []byte) {
 		if idx%shards == shard {
-			fn(artefact{id: id, data: data})
+			fn(artefact{id: id, data: data, framing: strings.HasPrefix(family, "framing")})
 		}
 		idx++
 	}
@@ -570,6 +572,54 @@ func (b *c19base) exercise(a artefact, queries []*bs.Query, exact [][]string) (f
 		run("self-described", md, false)
 	}
 	run("metastore-held", b.md, true)
+	if a.framing {
+		// (3) a MetaStore that holds the arbitrary metadata itself (nothing has validated it: no
+		// ReadFileMetadata stands between it and the readers) over the intact file, and the
+		// read helpers called with it
+		n := len(a.data)
+		mlen := int(binary.LittleEndian.Uint32(a.data[n-16:]))
+		var am bs.FileMetadata
+		// Only metadata whose size fields stay within the file's length (plus a page) is used
+		// here: a MetaStore is the engine's trusted catalogue, the readers cannot know the
+		// file's length without it, and how much they allocate for a size the catalogue
+		// declares is not something the property speaks about (it bounds allocation for
+		// metadata read from the file, flow 1). Offsets are arbitrary.
+		sane := func(m *bs.FileMetadata) bool {
+			lim := len(b.data) + 4096
+			if m.BlockFilterRegionSize > lim {
+				return false
+			}
+			for i := range m.DataBlocks {
+				if d := &m.DataBlocks[i]; d.RowDataSize > lim || d.BloomFilterSize > lim || d.UncompressedSize > lim {
+					return false
+				}
+			}
+			return true
+		}
+		if moff := n - 20 - mlen; moff >= 0 && json.Unmarshal(a.data[moff:moff+mlen], &am) == nil && sane(&am) {
+			for i := range am.DataBlocks {
+				blk := am.DataBlocks[i]
+				if data, err := bs.ReadDataBlockRowData(bytes.NewReader(b.data), &blk); err == nil && !b.noHash {
+					sc := bs.NewBlockRowScanner(data)
+					for {
+						rb, ok, err := sc.Next()
+						if err != nil || !ok {
+							break
+						}
+						if info, ierr := refmodel.Analyze(rb); ierr != nil || !rowOK(info.Canon) {
+							add("c19-helper-wrong-row:metastore-arbitrary", "ReadDataBlockRowData with MetaStore-held metadata yields a row that was never written: %q", rb)
+							break
+						}
+					}
+				}
+				bs.ReadDataBlockBloomFilters(bytes.NewReader(b.data), blk)
+			}
+			orig := a.data
+			a.data = b.data
+			run("metastore-arbitrary", &am, false)
+			a.data = orig
+		}
+	}
 	return
 }
 
